@@ -6,6 +6,8 @@ package verifrt
 
 import (
 	"encoding/json"
+	"sync"
+	"time"
 	"fmt"
 	"math/big"
 	"os"
@@ -47,12 +49,14 @@ func Load() error {
 	var f struct {
 		Vector []Entry        `json:"vector"`
 		Bounds map[string]int `json:"bounds"`
+		Sched  []string       `json:"sched"`
 	}
 	if err := json.Unmarshal(data, &f); err != nil {
 		return err
 	}
 	SetVector(f.Vector)
 	bounds = f.Bounds
+	setSchedOrder(f.Sched)
 	return nil
 }
 
@@ -323,4 +327,55 @@ func RunNative(name string, h func()) (failed []string, panicMsg string, assumeF
 		failed = append(failed, f.Label)
 	}
 	return
+}
+
+// ---- schedule points ----------------------------------------------------
+
+var (
+	schedMu    sync.Mutex
+	schedCond  = sync.NewCond(&schedMu)
+	schedOrder []string // order in which SchedPoint tags are passed (replay)
+	schedPos   int
+	schedOn    bool
+)
+
+func setSchedOrder(o []string) {
+	schedMu.Lock()
+	schedOrder, schedPos, schedOn = o, 0, len(o) > 0
+	schedMu.Unlock()
+}
+
+// SchedPoint marks a point in harness stubs at which the order of concurrent
+// goroutines matters. Under the engine it is a voluntary yield: the scheduler
+// may run any other runnable goroutine first (explored exhaustively when the
+// obligation explores schedules) and records the order in which the tags are
+// passed. In a native replay the recorded order is enforced: the call blocks
+// until tag is next in the recorded order (it gives up ordering after a
+// timeout so that a diverging run cannot hang). Without a recorded order it is
+// a plain runtime.Gosched. (engine: intrinsic)
+func SchedPoint(tag string) {
+	schedMu.Lock()
+	if !schedOn {
+		schedMu.Unlock()
+		runtime.Gosched()
+		return
+	}
+	deadline := time.Now().Add(3 * time.Second)
+	timer := time.AfterFunc(3*time.Second, func() { schedMu.Lock(); schedCond.Broadcast(); schedMu.Unlock() })
+	defer timer.Stop()
+	for schedOn && schedPos < len(schedOrder) && schedOrder[schedPos] != tag {
+		if time.Now().After(deadline) {
+			schedOn = false // diverged: stop enforcing
+			schedCond.Broadcast()
+			break
+		}
+		schedCond.Wait()
+	}
+	if schedOn && schedPos < len(schedOrder) {
+		schedPos++
+	}
+	schedCond.Broadcast()
+	schedMu.Unlock()
+	// give the goroutine released before us a chance to act on its release
+	time.Sleep(2 * time.Millisecond)
 }
